@@ -17,7 +17,8 @@ def run(chk, args):
         mc_bounds(chk, "SAM4", N=4, cls="SAM", sing="m2to0", slacks="m2to0", computers={"sam"}, reps={0, 1, 2, 4}, maxchg=1,
                   allow_reset=False, tight=False, edges=False, invariants=INV, timeout=3400)
     validate_bounds_traces(chk, [
-        {"family": "sam", "ns": "3,4,5" if q else "3,4,5,6", "count": 25 if q else 150, "length": 12 if q else 16, "reps": "0,1,2,5,10"},
+        {"family": "sam", "ns": "3,4" if q else "3,4", "count": 20 if q else 120, "length": 12 if q else 16, "reps": "0,1,2,5,10"},
+        {"family": "sam", "ns": "5" if q else "5,6", "count": 40 if q else 200, "length": 12 if q else 18, "reps": "0,1,3"},
         {"family": "sam", "ns": "3,4", "count": 6 if q else 30, "length": 8, "reps": "1,10,100,1000"},
         {"family": "float_sam", "ns": "3,4,5", "count": 15 if q else 100, "length": 10, "reps": "0,1,2,10"},
     ])
